@@ -85,6 +85,18 @@ PROPS = {
         text="The expected parse result is known by construction (the harness renders the bytes itself), so reader fidelity is decided against ground truth rather than against the implementation; writer fidelity is decided by two decoders, one of them independent.",
         note="Trusted: the renderer and the independent decoder in the harness, rapid.",
         design="5/C01"),
+    "C02": P(
+        "TestC02", "exploration",
+        "read: case = (ground-truth WebVTT model, rendering); model = optional X-TIMESTAMP-MAP, 0..3 STYLE blocks, 0..3 regions (subset of 5 attributes), 0..8 cues (1 in 30: 40..100) with optional numeric id, 0..3 comment lines, cue-settings subset, region reference, 1..3 lines with optional voice and 1..4 runs; run = tag stack of depth 0..3 over {b,i,u,c,lang,ruby,rt} with 0..2 classes and optional annotation (consecutive stacks share a prefix: proper nesting, incl. same name with different classes / parent), optional inline timestamp, Unicode text classes; "
+        "rendering = EOL kinds, BOM, header tail, mm:ss.ttt vs hh:mm:ss.ttt, ids present/absent, tab/space before settings, setting and region-key permutations, regions in the header or right before first use, NOTE blocks split or joined, tags closed per line or carried to the next line, minimal transition or close-all/reopen, unterminated at cue end, </v> present/absent, blank-line counts, final EOL. "
+        "write: the model converted to the public types (each STYLE block its own style definition, cues with a region but no inline style included). Non-trivial = >=1 cue and >=1 feature label; distinct = hash of the rendered bytes (read) / model (write).",
+        ["N1-N3 of DESIGN.md; cue text / comment / CSS lines do not begin with NOTE, STYLE, 'Region: ', X-TIMESTAMP-MAP and contain no '-->'; one voice per line, voice tag first; numeric identifiers; an inline timestamp is written directly before the text it marks",
+         "STYLE blocks coming from distinct style definitions may be written in any block order (C19 decides determinism)",
+         "the independent WebVTT decoder in c02_indep_test.go implements the library's documented dialect (old-style 'Region:' lines)"],
+        shards=(4, 16), technique="model-based property testing: ground-truth model x rendering -> reader compared with the model; writer output decoded by the library reader and by an independent WebVTT decoder that also checks region-definition order",
+        text="Reader fidelity is decided against a ground truth known by construction; writer fidelity by two decoders, the independent one rejecting mis-nested tags, non-numeric identifiers and region references that precede their definition.",
+        note="Trusted: renderer and independent decoder in the harness, rapid.",
+        design="5/C02"),
 }
 
 # Properties deliberately not claimed (reason each); anything else missing from PROPS is work in progress.
